@@ -97,10 +97,32 @@ func runC03(c *core.Ctx) {
 	ei := core.ComputeEffects(p)
 	helpers := c03helpers(p)
 	var counterIndexed []string
+	// (a helper that delegates to another function of the package - exported or not - is decided on that function's body)
+	subjects := append([]*ssa.Function{}, helpers...)
+	{
+		seen := map[*ssa.Function]bool{}
+		for _, f := range subjects {
+			seen[f] = true
+		}
+		for i := 0; i < len(subjects); i++ {
+			for _, g := range core.Callees(p, subjects[i], true) {
+				if !seen[g] && g.Pkg == p.Fpgo && g.Parent() == nil && g.Signature.Recv() == nil {
+					seen[g] = true
+					subjects = append(subjects, g)
+				}
+			}
+		}
+	}
+	isHelper := map[*ssa.Function]bool{}
 	for _, f := range helpers {
+		isHelper[f] = true
+	}
+	for _, f := range subjects {
 		c.Analysed(core.FuncName(f))
 		// R3
-		if strings.HasPrefix(f.Name(), "Sort") {
+		if !isHelper[f] {
+			// a function a helper delegates to: its writes are part of the helper's own effect summary
+		} else if strings.HasPrefix(f.Name(), "Sort") {
 			c.Pass("R3", f.Name(), p.Pos(f.Pos()), "documented in-place sort (C19)")
 		} else {
 			e := ei.Of[f]
@@ -206,7 +228,6 @@ func runC03(c *core.Ctx) {
 	}
 	c.Extra["counter_indexed_sites_not_claimed"] = counterIndexed
 	// R4 / R5 over the helpers and the unexported helpers they call
-	subjects := append(append([]*ssa.Function{}, helpers...), core.HelpersOf(p, helpers)...)
 	nDiv, nLk := 0, 0
 	for _, f := range subjects {
 		all, bad := c03divisions(f)
